@@ -26,6 +26,41 @@ def ensurePort (addr : List Char) (port : Nat) : List Char :=
     | 1 => addr
     | _ => '[' :: addr ++ ']' :: ':' :: itoa port
 
+/-- split at the LAST occurrence of `c`: `(before, after)`; `none` when `c` does not occur -/
+def splitLast (c : Char) : List Char → Option (List Char × List Char)
+  | [] => none
+  | x :: xs =>
+    match splitLast c xs with
+    | some (a, b) => some (x :: a, b)
+    | none => if x = c then some ([], xs) else none
+
+/-- `net.SplitHostPort` (Go's net/ipsock.go), which is what the dialer applies to the address it is given:
+`none` = an error ("missing port", "too many colons", "missing ']'", "unexpected '['/']'"). -/
+def splitHostPort (s : List Char) : Option (List Char × List Char) :=
+  match splitLast ':' s with
+  | none => none                                             -- missing port in address
+  | some (pre, port) =>
+    if s.head? = some '[' then
+      -- the first ']' has to be followed directly by the last ':'
+      let inner := s.tail
+      let host := inner.takeWhile (· != ']')
+      match inner.dropWhile (· != ']') with
+      | [] => none                                           -- missing ']' in address
+      | _ :: after =>
+        match after with
+        | [] => none                                         -- missing port
+        | a :: t =>
+          if a != ':' then none                              -- missing port
+          else if t.contains ':' then none                   -- too many colons
+          else if inner.contains '[' then none               -- unexpected '['
+          else if after.contains ']' then none               -- unexpected ']'
+          else some (host, t)
+    else
+      if pre.contains ':' then none                          -- too many colons
+      else if s.contains '[' then none
+      else if s.contains ']' then none
+      else some (pre, port)
+
 inductive Transport where
   | xmpp (dial : List Char)
   | ws
